@@ -280,7 +280,7 @@ theorem file_rt_stream (order : Option (List Nat)) (d : SDoc) (out : Bytes) (d' 
       have : 2 ≤ MAX_NESTING := by decide
       omega
     · exact (NoRealD_iff _).mpr (fun p hp => (hsv p hp).2.2)
-  apply load_of_save_stream_with _ (loadDocOrd_arr_nil order) d out d' hk h hlen hmax hwf hnd (hD _) ?_ hv1 hv2 hprev
+  apply load_of_save_stream_with _ _ (loadDocOrd_arr_nil order) rfl d out d' hk h hlen hmax hwf hnd (hD _) ?_ hv1 hv2 hprev
     henc
   intro p hp
   obtain ⟨hr1, hr2⟩ := hwf.range p hp
@@ -342,7 +342,7 @@ theorem file_rt_incr (order : Option (List Nat))
     obtain ⟨hr1, hr2⟩ := hwf.range p hp
     exact indirectReadsBack_of_ok _ _ _ (by simp [U32_MAX]; omega)
       (by have := hwf.gens p hp; simp [U16_MAX]; omega) (hobjs p hp)
-  exact load_of_incr_save_with _ (loadDocOrd_arr_nil order) d1 d2 out1 out2 d1' d2' hk1 hk2 h1 h2 hlen hmax1 hmax2
+  exact load_of_incr_save_with _ _ (loadDocOrd_arr_nil order) rfl d1 d2 out1 out2 d1' d2' hk1 hk2 h1 h2 hlen hmax1 hmax2
     hwf1 hwf2 hnd hgen hprev hnoprev hstm henc
     (fun rest => by rw [e1]; exact setSize_readsBack d1.trailer d1.maxId (by omega) htr1 _)
     (fun rest => by rw [e2]; exact setSize_readsBack d2.trailer d2.maxId (by omega) htr2 _)
@@ -448,7 +448,7 @@ theorem file_rt_table_norm (order : Option (List Nat)) (d : SDoc) (out : Bytes) 
     · simp only [height] at t2 ⊢
       have := heightD_set_int d.trailer SIZE ((d.maxId : Int) + 1)
       omega
-  apply load_of_save_table_withN _ (loadDocOrd_arr_nil order) nfObj nfObj_notObjStm d out d' (normD d'.trailer)
+  apply load_of_save_table_withN _ _ (loadDocOrd_arr_nil order) rfl nfObj nfObj_notObjStm d out d' (normD d'.trailer)
     hk h hlen hmax hwf (hD _) ?_ ?_ hv1 hv2 ?_ ?_
   · rw [normD_get, htr', Dict.get_set_same]; simp [norm]
   · intro p hp len base rest
